@@ -56,6 +56,27 @@ def run(P, C, tier):
     for name, b in (("local", loc), ("remote", rem)):
         has, refuses, where = size_limit(b)
         C.ob("R1", "size-limit:" + name, has and refuses, where, "serialized_size(row) > max_node_size refuses: present=%s refuses=%s" % (has, refuses))
+    # R1: the local path measures the row in the form the peers will measure it: signed (the key and the signature are 96 of the bytes)
+    try:
+        vm = P.body("RoomAuthorisations::validate_mutation")
+        C.saw(vm)
+        signs = []
+        for bi, t in vm.calls_to(r"MutationQuery::sign_all$"):
+            re_ = mir.result_edges_any(vm, bi)
+            signs.append((bi, re_))
+        sites = [bi for bi, t, ob, obi in vm.calls_incl_closures() if callee_name(t).endswith("RoomAuthorisations::validate_entity_mutation")]
+        unsigned = []
+        for sbi in sites:
+            doms = vm.dom_chain(sbi)
+            if not any(bi in doms and re_ is not None and re_.get("ok") in doms + [sbi] for bi, re_ in signs):
+                unsigned.append(vm.loc(sbi))
+        ok = bool(signs) and bool(sites) and not unsigned
+        C.ob("R1", "size-limit:local-measures-signed-row", ok, vm.loc(signs[0][0]) if signs else vm.loc(),
+             "%d call(s) of validate_entity_mutation (which measures serialized_size(row)); preceded on every path by the Ok edge of sign_all: %s%s" % (
+                 len(sites), not unsigned, "" if ok else " -- a new row is measured with an empty key and signature, 96 bytes smaller than the row "
+                 "peers measure: a row within 96 bytes above the limit is accepted locally and refused by every peer (sites: %s)" % unsigned))
+    except mir.MissingAnchor as e:
+        C.anchor_missing("R1", "validate_mutation", e)
     # R2
     ls = rights.can_sites(P, loc)
     ltab = kind_table([s for s in ls if not s["room_ineq"]])
